@@ -2,6 +2,8 @@
 resolution rules prescribe."""
 import copy
 import io
+import json
+import random
 
 from ..harness import Shard, rng_for, h64, schema_shape, datum_shape, printable, guard, exc_name
 from ..gen.cases import gen_case
@@ -63,10 +65,12 @@ def f32ok(a, b):
     return False
 
 
-def one_case(sh, fa, SRE, rng, case):
+def one_case(sh, fa, SRE, rng, case, drop_bytes_default_fields=False):
     wjs, wnode, d = case["schema"], case["node"], case["datum"]
     ev = Evolver(rng)
     rjs, steps = ev.evolve(wjs)
+    if drop_bytes_default_fields:
+        rjs = _drop_fields(rjs, "added_bytes")
     try:
         rnode, renv = RS.build(rjs)
     except RS.SchemaError:
@@ -112,6 +116,22 @@ def one_case(sh, fa, SRE, rng, case):
         sh.count("container_reads")
     sh.count("triples_checked")
     sh.count("expected_" + verdict)
+
+
+def _drop_fields(js, name):
+    if isinstance(js, list):
+        return [_drop_fields(b, name) for b in js]
+    if isinstance(js, dict):
+        out = dict(js)
+        t = js.get("type")
+        if t == "array":
+            out["items"] = _drop_fields(js["items"], name)
+        elif t == "map":
+            out["values"] = _drop_fields(js["values"], name)
+        elif t == "record":
+            out["fields"] = [dict(f, type=_drop_fields(f["type"], name)) for f in js.get("fields", []) if name not in f["name"]]
+        return out
+    return js
 
 
 def judge(sh, SRE, st, got, verdict, want, info, api):
@@ -162,7 +182,12 @@ def run_shard(spec):
         i += 1
         case = gen_case(rng, dict(bytes_defaults=0.0, max_nodes=20), dict(size_budget=40, big=0.0, mappings=0.0, omit_defaults=0.0))
         sh.feat(case["features"])
-        sh.run_case(one_case, sh, fa, SRE, rng, case)
+        seed = rng.getrandbits(48)
+        probe = Evolver(random.Random(seed)).evolve(case["schema"])[0]
+        applies = 'added_bytes"' in json.dumps(probe)
+        sh.run_case(sh.with_finding, "bytes-default-used-verbatim", applies,
+                    lambda s_: one_case(s_, fa, SRE, random.Random(seed), case),
+                    lambda s_: one_case(s_, fa, SRE, random.Random(seed), case, True))
         if i % 400 == 1:
             sh.sample({"writer": case["schema"], "datum": printable(case["datum"], 150)})
     return sh.result()
